@@ -194,10 +194,14 @@ func C01(r *core.Run) {
 		// barrier-released bursts: all clients wait for step i before sending request i
 		var step int64
 		var lost int64
+		var mainWg sync.WaitGroup
+		mainDone := make(chan struct{})
 		for c := 0; c < K; c++ {
 			wg.Add(1)
+			mainWg.Add(1)
 			go func(c int) {
 				defer wg.Done()
+				defer mainWg.Done()
 				cl := rawhttp.NewClient(t.addr, time.Duration(r.Pick(12, 30))*time.Second)
 				defer cl.Close()
 				for i, p := range plans[c] {
@@ -287,6 +291,48 @@ func C01(r *core.Run) {
 				mu.Unlock()
 			}(k)
 		}
+		// ... and uploads that pause: the client sends a good part of a 60-90 KB body and then nothing for as long as the
+		// round's other clients are at work (25 s at most), then the rest; everybody else must be served meanwhile, and
+		// the paused upload's own response must be its own
+		go func() { mainWg.Wait(); close(mainDone) }()
+		for k := 0; k < 3; k++ {
+			wg.Add(1)
+			go func(k int) {
+				defer wg.Done()
+				time.Sleep(time.Duration(350+k*300) * time.Millisecond)
+				tok := fmt.Sprintf("s%dr%dpause%d", r.Seed, round, k)
+				size, reqSize := 300+k*4000, 60000+k*15000
+				full := tokRequest("POST", tok, size, 0, "h"+tok+".example", tokBytes(tok, "req", reqSize), nil)
+				res := result{tok: tok, method: "POST", size: size, reqSize: reqSize}
+				t0 := time.Now()
+				conn, err := net.DialTimeout("tcp", t.addr, 5*time.Second)
+				if err == nil {
+					cut := len(full) - reqSize/2
+					conn.Write(full[:cut])
+					select {
+					case <-mainDone:
+					case <-time.After(25 * time.Second):
+					}
+					paused := time.Since(t0)
+					conn.SetDeadline(time.Now().Add(20 * time.Second))
+					conn.Write(full[cut:])
+					var m *rawhttp.Message
+					m, err = rawhttp.ReadResponse(bufio.NewReader(conn), "POST")
+					conn.Close()
+					if err == nil {
+						res.bad = checkTokResponse(m, "POST", tok, size)
+						r.Add("paused_uploads_completed_and_compared", 1)
+						r.Max("longest_upload_pause_ms", int(paused.Milliseconds()))
+					}
+				}
+				// the completion time of a paused upload is the round's length: not part of the latency statistics;
+				// an unanswered one is reported as inconclusive below (ms stays 0), never as a lost response
+				res.err = err
+				mu.Lock()
+				results = append(results, res)
+				mu.Unlock()
+			}(k)
+		}
 		// ... and clients that announce an upload, send only part of it and disconnect (whatever the proxy and the agent do
 		// with the truncated request must not leak into anybody else's exchange)
 		for k := 0; k < 16; k++ {
@@ -312,7 +358,7 @@ func C01(r *core.Run) {
 		// oracle 1: every client saw only its own token sites
 		var okMs []int64
 		for _, res := range results {
-			if !res.aborted && res.err == nil {
+			if !res.aborted && res.err == nil && !strings.Contains(res.tok, "pause") {
 				okMs = append(okMs, res.ms)
 			}
 		}
